@@ -157,7 +157,9 @@ PROPS = {
         "level_note": "Assumed, sampled by the kill stream: badger commits are atomic and durable, each store method is one transaction (the model's unit). Not modelled: OS / filesystem / fsync behaviour and badger internals (a SIGKILL leaves the page cache intact, so power-loss durability is outside what this sandbox can exercise).",
         "lean_modules": ["Vipnode.Props.C13"],
         "streams": [{"name": "persist-disk", "component": "persist", "cases": {"quick": 12, "thorough": 150}, "no_shrink": True},
-                    {"name": "store-badger", "component": "store", "opts": {"driver": "badger"}, "cases": {"quick": 100, "thorough": 1000}}],
+                    {"name": "store-badger", "component": "store", "opts": {"driver": "badger"}, "cases": {"quick": 100, "thorough": 1000}},
+                    # acknowledged credits racing with the multi-key trial migration (link) on the persistent driver
+                    {"name": "conc-badger", "component": "conc", "gen": "conc-core", "opts": {"driver": "badger"}, "cases": {"quick": 10, "thorough": 120}, "no_shrink": True, "corpus_filter": "^$"}],
         "monitor": monitors.c13_persist,
     },
     "C14": {
@@ -166,7 +168,7 @@ PROPS = {
         "lean_modules": ["Vipnode.Props.C14"],
         "streams": [
             {"name": "rpc-sched", "component": "rpc", "cases": {"quick": 120, "thorough": 2000}},
-            {"name": "rpc-storm", "component": "rpc", "gen": "rpc-storm", "cases": {"quick": 5, "thorough": 40}, "no_shrink": True, "race": True},
+            {"name": "rpc-storm", "component": "rpc", "gen": "rpc-storm", "cases": {"quick": 9, "thorough": 45}, "no_shrink": True, "race": True, "timeout": 400},
         ],
         "race": True,
         "monitor": monitors.c14_rpc,
